@@ -20,7 +20,7 @@ import warnings
 from collections import defaultdict
 from collections.abc import Iterable, Sequence
 from dataclasses import dataclass, replace
-from graphlib import TopologicalSorter
+from graphlib import CycleError, TopologicalSorter
 from typing import Generic, Protocol
 
 from qref import SchemaV1
@@ -297,7 +297,13 @@ def _compile(
         parameter_map, _param_tree_from_compiled_ports(connections_map[None], compiled_ports)
     )
 
-    for child in routine.sorted_children():
+    try:
+        sorted_children = routine.sorted_children()
+    except CycleError as e:
+        # e.g. a cycle closed through a through port, which the topology verification does not see
+        raise BartiqCompilationError(f"Connections between the children of {context.path} form a cycle: {e.args[1]}.")
+
+    for child in sorted_children:
         compiled_child = _compile(
             child, backend, parameter_map[child.name], context.descend(child.name), derived_resources
         )
